@@ -851,7 +851,8 @@ def _depr_table_by_terms(ctx):
                         if qe.ev(c[1]) is not c[2]:
                             return False
                 return True
-            present = attr = False
+            # every production of a named response field that can be taken in this cell has to agree
+            outcomes = set()
             for it in ctx.all_items():
                 if it.kind != 'struct':
                     continue
@@ -860,11 +861,8 @@ def _depr_table_by_terms(ctx):
                         continue
                     nfields += 1
                     if holds(f.conds):
-                        present = True
-                        for a in f.attrs:
-                            if a.path == 'deprecated' and holds(a.rel(f.conds)):
-                                attr = True
-            res[(dep, strat)] = 'omit' if not present else ('attr' if attr else 'none')
+                        outcomes.add('attr' if any(a.path == 'deprecated' and holds(a.rel(f.conds)) for a in f.attrs) else 'none')
+            res[(dep, strat)] = 'omit' if not outcomes else (next(iter(outcomes)) if len(outcomes) == 1 else 'mixed: some productions carry #[deprecated], some do not')
     return res, nfields
 
 @rule('DEPR-TABLE')
@@ -970,8 +968,23 @@ def _depr_table_by_shape(ctx):
     want = {('None', 'Allow'): 'none', ('None', 'Warn'): 'none', ('None', 'Deny'): 'none', ('Some', 'Allow'): 'none',
             ('Some', 'Warn'): 'attr+note?', ('Some', 'Deny'): 'omit'}
     diffs = ['%s/%s: %s (expected %s)' % (k[0], k[1], table.get(k), v) for k, v in want.items() if table.get(k) != v]
+    # the table only decides the field if no rendered field leaves the function before the match is evaluated
+    def _posn(n_):
+        mm = re.search(r':(\d+):(\d+)', n_.get('sp', ''))
+        return (int(mm.group(1)), int(mm.group(2))) if mm else (0, 0)
+    bypass = []
+    for r_ in walk(fn.body):
+        if r_['k'] == 'ret' and _posn(r_) < _posn(m) and not any(p_ is m for p_, _r, _c in fn.ancestors(r_)):
+            v_ = r_.get('e') or {}
+            while v_.get('k') in ('wrap',):
+                v_ = v_['e']
+            is_none = v_.get('k') == 'path' and v_.get('res', {}).get('path', '').endswith('::None')
+            if not is_none:
+                bypass.append(r_)
+    if bypass:
+        diffs.append('a rendered field is returned before the (deprecation, strategy) match is evaluated')
     if diffs:
-        obs.append(bad('DEPR-TABLE', inst + '/table', '; '.join(diffs), m.get('sp', ''), 'a strategy does something else than documented (or touches non-deprecated fields)'))
+        obs.append(bad('DEPR-TABLE', inst + '/table', '; '.join(diffs), (bypass[0] if bypass else m).get('sp', ''), 'a strategy does something else than documented (or touches non-deprecated fields)'))
     else:
         obs.append(ok('DEPR-TABLE', inst + '/table', 'None/* and Some/Allow -> no attribute; Some/Warn -> #[deprecated(note?)]; Some/Deny -> field omitted (total over 2x3)', m.get('sp', '')))
     # note only when the schema gives a reason: `msg.map(|m| quote!((note = #m)))`
